@@ -104,6 +104,22 @@ where
             // and the second (else) block, leaving the first (then) block so that it may be
             // performed next.
             (Ok(true), Ok(_), Ok(_)) => {
+                // The `then` block goes back onto the exec stack once both blocks are
+                // gone; make sure it will fit (the maximum may have been lowered below
+                // the current size) before removing anything.
+                let exec = state.stack::<PushProgram>();
+                if exec
+                    .size()
+                    .checked_sub(2)
+                    .is_some_and(|remaining| remaining >= exec.max_stack_size())
+                {
+                    return Err(Error::fatal(
+                        state,
+                        StackError::Overflow {
+                            stack_type: std::any::type_name::<PushProgram>(),
+                        },
+                    ));
+                }
                 if let Err(e) = state.stack_mut::<bool>().pop() {
                     // This should never happen since we just checked that the stack has a boolean.
                     return Err(Error::fatal(state, e));
